@@ -27,6 +27,7 @@ TIERS = {
     "quick": {"runs": 400, "budget_s": 480, "det_pairs": 3},
     "thorough": {"runs": 100000, "budget_s": 1800, "det_pairs": 6},
 }
+SYSTEM_IN_RUN_PROCESS = True      # the code under test runs in the run process itself: its death by signal is the system's crash
 RUN_TIMEOUT = 900
 SHRINK_BUDGET = 40
 RULE = (
@@ -119,6 +120,7 @@ def gen_plan(seed, tier="quick"):
         # history: an earlier destripe call in the same process on a recording of ANOTHER probe type (other ADC sampling
         # delays) with the same channel count and batch size
         "prelude": (r.choice([f for f in ("NP1", "NP21", "NP24") if f != fixture]) if r.random() < 0.2 else None),
+        "prelude_fs": r.choice([None, None, 12500.0, 20000.0]),      # ... possibly acquired at quite another sampling rate
         # the process environment of a cluster job / a constrained machine: resource hints that libraries like to read
         "env": ({k: v for k, v in (("SLURM_CPUS_PER_TASK", r.choice(["1", "2", "3"])), ("SLURM_JOB_CPUS_PER_NODE", r.choice(["2", "4"])),
                                    ("LOKY_MAX_CPU_COUNT", r.choice(["1", "2"])), ("OMP_NUM_THREADS", "1"), ("NUMBA_NUM_THREADS", "1"))
@@ -401,8 +403,89 @@ def _make_shank_world(plan, base):
     return [base / "par" / ("probe00" + c) for c in "abcd"]
 
 
+class _PristineOracle:
+    """A process forked BEFORE the system runs, which later computes the in-memory reference: module-level state that the
+    system's calls leave behind (a cached stencil, default filter parameters remembered from an earlier recording) cannot
+    reach the oracle, which uses the repository's own destripe()."""
+
+    def __init__(self):
+        import pickle
+        self.r1, self.w1 = os.pipe()
+        self.r2, self.w2 = os.pipe()
+        self.pid = os.fork()
+        if self.pid == 0:
+            try:
+                os.close(self.w1)
+                os.close(self.r2)
+                data = b""
+                while True:
+                    chunk = os.read(self.r1, 1 << 16)
+                    if not chunk:
+                        break
+                    data += chunk
+                if data:
+                    args = pickle.loads(data)
+                    try:
+                        _check_reference(*args)
+                        out = ("ok", None)
+                    except Violation as v:
+                        out = ("viol", (v.clause, v.sig, v.detail))
+                    except BaseException:
+                        import traceback
+                        out = ("err", traceback.format_exc())
+                    os.write(self.w2, pickle.dumps(out))
+            finally:
+                os._exit(0)
+        os.close(self.r1)
+        os.close(self.w2)
+        self.done = False
+
+    def check(self, *args):
+        import pickle
+        payload = pickle.dumps(args)
+        view = memoryview(payload)
+        while view:
+            n = os.write(self.w1, view[:1 << 16])
+            view = view[n:]
+        os.close(self.w1)
+        data = b""
+        while True:
+            chunk = os.read(self.r2, 1 << 16)
+            if not chunk:
+                break
+            data += chunk
+        os.close(self.r2)
+        os.waitpid(self.pid, 0)
+        self.done = True
+        kind, val = pickle.loads(data) if data else ("err", "the oracle process ended without an answer")
+        if kind == "viol":
+            raise Violation(*val)
+        if kind == "err":
+            raise RuntimeError("oracle process failed: " + str(val)[-1500:])
+
+    def cancel(self):
+        if not self.done:
+            for fd in (self.w1, self.r2):
+                try:
+                    os.close(fd)
+                except OSError:
+                    pass
+            os.waitpid(self.pid, 0)
+            self.done = True
+
+
 def _run(plan, base):
     _install()
+    if plan.get("count_only"):
+        return _run2(plan, base, None)
+    oracle = _PristineOracle()
+    try:
+        return _run2(plan, base, oracle)
+    finally:
+        oracle.cancel()
+
+
+def _run2(plan, base, oracle):
     _SHARED_READER_KWARGS.clear()
     shank_world = plan["fixture"] == "NP24_shank"
     fs = world.meta_fs("NP24" if shank_world else plan["fixture"])
@@ -494,8 +577,8 @@ def _run(plan, base):
                 ns_p = min(12000, 2 * plan["nbatch"] + 100) if not plan.get("nbatch_default") else 3000
                 Op = world.make_data(plan["data_seed"] ^ 0x3131, ns_p, nap, amp=(60 if fxp == "NP1" else 400),
                                      maxint=(512 if fxp == "NP1" else 8192), smooth=True)
-                binp = world.write_recording(base / "rec_p", STEM, fxp, Op)
-                fs_p = world.meta_fs(fxp)
+                binp = world.write_recording(base / "rec_p", STEM, fxp, Op, fs=plan.get("prelude_fs"))
+                fs_p = plan.get("prelude_fs") or world.meta_fs(fxp)
             (base / "out_p").mkdir()
             pp = dict(plan, ns=ns_p, reject=False, append=False, qc_path=False)
             rp = _sim_run(pp, binp, base / "out_p" / "destriped.bin", min(2, plan["nproc"]), False,
@@ -599,7 +682,7 @@ def _run(plan, base):
             raise Violation("C06.d", f"{sigbase}:differs-from-1-worker",
                             f"output with {plan['nproc']} workers differs from the 1-worker run: {len(bad)} int16 values, first at sample {bad[0] // nc_out if len(bad) else '?'} (sizes {len(a)} vs {len(b)}) ns={ns} nbatch={plan['nbatch']}")
         # e: equals batch-wise in-memory destriping (1 LSB)
-        _check_reference(plan, O, outs["ref"], offset, nc_out, fs, rec, sigbase, W)
+        oracle.check(plan, O, outs["ref"], offset, nc_out, fs, rec, sigbase, {k: v for k, v in W.items() if k != "root"})
     except Violation as v:
         viol = {"clause": v.clause, "sig": v.sig, "detail": v.detail}
     xplan = dict(plan)
